@@ -362,7 +362,7 @@ func (g *c20G) word() string { return core.Pick(g.r, c20Words) }
 func (g *c20G) atom() string {
 	for {
 		a := core.Pick(g.r, c20Atoms)
-		if a.class == "unbalanced" || g.tame && (a.class == "markup" || a.class == "lt") {
+		if a.class == "unbalanced" || g.tame && (a.class == "markup" || a.class == "lt" || strings.Contains(a.s, `"<b>"`)) {
 			continue
 		}
 		return a.s
